@@ -95,6 +95,11 @@ func init() {
 			k.MaxOps = 28
 			k.MaxScopes = 6
 			k.PSoft = 35
+			// (cross-feature, low rate) the property is also judged on
+			// containers that have seen failed executions and rejected
+			// (cycle-closing) registrations
+			k.NoFaults, k.PFault, k.PPanic = false, 4, 50
+			k.WCycleCloser = 1
 			return k
 		},
 		clauses: []string{CUserCodeOutsideInvoke, COutsideClosure, CMustRunMissing, CBadExec, CUnregisteredRan},
@@ -119,6 +124,7 @@ func init() {
 			k.PDecoGroup = 10
 			k.MaxScopes = 5
 			k.NoFaults, k.PFault, k.PErr = false, 10, 35
+			k.WCycleCloser = 1 // after a cycle-rejected registration the state must be intact
 			return k
 		},
 		clauses: []string{CVerdictInvoke, CZeroAvailable, CZeroRequired, CNonZeroUnavail, CUnavailDirectRan, CRootCause},
@@ -142,6 +148,11 @@ func init() {
 			k.PFresh = 90
 			k.WDecorate = 2
 			k.MaxOps = 26
+			// (cross-feature, low rate) the property is also judged on
+			// containers that have seen failed executions and rejected
+			// (cycle-closing) registrations
+			k.NoFaults, k.PFault, k.PPanic = false, 4, 50
+			k.WCycleCloser = 1
 			return k
 		},
 		clauses: []string{CProvSingle, CFromNowhere, CVerdictInvoke, CGroupForeign, CGroupMultiset, CZeroAvailable, CBadExec},
@@ -193,6 +204,11 @@ func init() {
 			k.PExport = 25
 			k.WInvoke = 9
 			k.MaxOps = 26
+			// (cross-feature, low rate) the property is also judged on
+			// containers that have seen failed executions and rejected
+			// (cycle-closing) registrations
+			k.NoFaults, k.PFault, k.PPanic = false, 4, 50
+			k.WCycleCloser = 1
 			return k
 		},
 		clauses: []string{CGroupMultiset, CGroupForeign, CExecTwice, CBadExec},
@@ -218,6 +234,11 @@ func init() {
 			k.WInvoke = 9
 			k.PObjParam = 70
 			k.PSoftSibling = 60
+			// (cross-feature, low rate) the property is also judged on
+			// containers that have seen failed executions and rejected
+			// (cycle-closing) registrations
+			k.NoFaults, k.PFault, k.PPanic = false, 4, 50
+			k.WCycleCloser = 1
 			return k
 		},
 		clauses: []string{COutsideClosure, CGroupForeign, CSoftLower, CSoftDup, CBadExec, CExecTwice},
@@ -244,6 +265,7 @@ func init() {
 			k.Names = []string{"a"}
 			k.MaxScopes = 5
 			k.MaxOps = 26
+			k.WCycleCloser = 1 // after a cycle-rejected registration the state must be intact
 			return k
 		},
 		clauses: []string{CVerdictDecorate, CExecTwice, CProvSingle, CGroupMultiset, CFromNowhere, CBadExec, CZeroRequired},
